@@ -34,9 +34,11 @@ rm -rf "$SNAP"; mkdir -p "$SNAP"
 git -C /verif archive HEAD | tar -x -C "$SNAP" --exclude=seeded --exclude=evidence
 echo "== checks from /verif commit $(git -C /verif rev-parse --short HEAD)" | tee -a "$LOG"
 cd "$SNAP"
-for c in $CHECKS; do
-  echo "== our check $c quick against the changed tree" | tee -a "$LOG"
-  VERIF_REPO_DIR="$WT" ./check $c quick 2>&1 | sed "s#$SNAP#/verif#g" | grep -v "^WARNING" | grep "VIOLATION\|sig=\|seed=\|KNOWN\|BROKEN\|BUILD" | cut -c1-260 | head -12 | tee -a "$LOG"
+for spec in $CHECKS; do
+  c="${spec%%:*}"; ONLY=""
+  if [ "$spec" != "$c" ]; then ONLY="--only ${spec#*:}"; fi   # C06:W4 = only the cases whose id contains W4
+  echo "== our check $c quick $ONLY against the changed tree" | tee -a "$LOG"
+  VERIF_REPO_DIR="$WT" ./check $c quick $ONLY 2>&1 | sed "s#$SNAP#/verif#g" | grep -v "^WARNING" | grep "VIOLATION\|sig=\|seed=\|KNOWN\|BROKEN\|BUILD" | cut -c1-260 | head -12 | tee -a "$LOG"
 done
 cd /verif
 rm -rf "$SNAP"
